@@ -34,12 +34,19 @@ def gen_programs(rng, n, size=6, feats=None, prefix="G"):
     return progs
 
 
+# when set (C11): the source files of a package import the API in different ways
+IMPORT_STYLES = None
+
+
 def make_batch(name, progs, per_file=6, files_per_pkg=8, gover="1.21"):
     b = cbatch.Batch(name, gover=gover)
+    b.styles = {}
     for i, p in enumerate(progs):
         fi = i // per_file
         pkg = "p%d" % (fi // files_per_pkg)
         b.add(pkg, "f%d" % fi, p["name"], p["body"])
+        if IMPORT_STYLES:
+            b.styles[(pkg, "f%d" % fi)] = IMPORT_STYLES[fi % len(IMPORT_STYLES)]
         p["pkg"] = pkg
         p["file"] = "f%d" % fi
     for pkg in list(b.pkgs):
